@@ -108,7 +108,7 @@ def run(ctx, prop):
     for name, line in viols:
         by_key.setdefault(key_for(name, line), (name, line))
     known = {k["key"] for k in vlib.load_known().get("findings", []) if k["property"] == prop}
-    for key, (name, line) in sorted(by_key.items()):
+    for key, (name, line) in sorted(vlib.limit_new(by_key, prop).items()):
         src = line["src"]
         if "#" in src:
             path, idx = src.split("/r")[0].split("@")[0].rsplit("#", 1)
